@@ -896,6 +896,66 @@ fn reference_mr(input: &str) -> (Vec<(String, usize, usize)>, Log) {
     (items, log)
 }
 
+// ---------------------------------------------------------------- ignore(case) x callbacks
+/// Every kind of definition that can carry `ignore(case)` carries a callback as well (token on a
+/// unit variant deciding by bool / Filter, token on a value variant, regex, skip): the flag changes
+/// what is matched and nothing else - the callback still runs, once per winning match, and decides.
+/// The decisions depend on the CASE of what was matched, so a callback that is lost, replaced by a
+/// default, or run on other text shows.
+fn upper_count(s: &str) -> usize {
+    s.bytes().filter(|b| b.is_ascii_uppercase()).count()
+}
+#[derive(Logos, Debug, Clone, PartialEq)]
+#[logos(extras = Log, error = MyErr)]
+#[logos(skip("rem[0-9]*", |lex| { note(lex); }, ignore(case)))]
+pub enum MI {
+    #[token("true", |lex| { note(lex); upper_count(lex.slice()) == 0 }, ignore(case))]
+    T,
+    #[token("null", |lex| { note(lex); if upper_count(lex.slice()) > 0 { Filter::Skip } else { Filter::Emit(()) } }, ignore(case))]
+    N,
+    #[token("yes", |lex| { note(lex); upper_count(lex.slice()) }, ignore(case))]
+    Y(usize),
+    #[token("Maybe", callback = |lex| { note(lex); lex.slice().len() + upper_count(lex.slice()) }, ignore(case), priority = 30)]
+    M(usize),
+    #[regex("k[0-9]*", |lex| { note(lex); 10 * upper_count(lex.slice()) + lex.slice().len() }, ignore(case))]
+    K(usize),
+    #[token(" ")]
+    Sp,
+}
+
+fn reference_mi(words: &[&str]) -> (Vec<(String, usize, usize)>, Log) {
+    let (mut items, mut log): (Vec<(String, usize, usize)>, Log) = (vec![], vec![]);
+    let mut p = 0;
+    for w in words {
+        let e = p + w.len();
+        let lw = w.to_ascii_lowercase();
+        let up = upper_count(w);
+        if *w != " " {
+            log.push((p, e, w.to_string()));
+        }
+        let out: Option<String> = if *w == " " {
+            Some("Ok(Sp)".into())
+        } else if lw == "true" {
+            Some(if up == 0 { "Ok(T)".into() } else { "Err(Default)".into() })
+        } else if lw == "null" {
+            if up > 0 { None } else { Some("Ok(N)".into()) }
+        } else if lw == "yes" {
+            Some(format!("Ok(Y({up}))"))
+        } else if lw == "maybe" {
+            Some(format!("Ok(M({}))", w.len() + up))
+        } else if lw.starts_with("rem") {
+            None
+        } else {
+            Some(format!("Ok(K({}))", 10 * up + w.len()))
+        };
+        if let Some(o) = out {
+            items.push((o, p, e));
+        }
+        p = e;
+    }
+    (items, log)
+}
+
 fn observe<'s, T>(input: &'s str) -> (Vec<(String, usize, usize)>, Log)
 where
     T: Logos<'s, Source = str, Extras = Log> + std::fmt::Debug,
@@ -1018,6 +1078,29 @@ pub fn run(tier: &str, rep: &mut Report) {
         }
     }
     strings(&["a", "c1", "i", "g12", "d", "n1", "+", " ", "é"], l + 1, &mut |s| check(rep, "MR", s, observe::<MR>(s), reference_mr(s), &mut digest));
+    // ignore(case) next to callbacks of every kind
+    {
+        let words = ["true", "TRUE", "True", "null", "NULL", "nulL", "yes", "YeS", "maybe", "MAYBE", "rem1", "REM", "Rem12", "k1", "K12", "k", " "];
+        fn rec(words: &[&str], l: usize, cur: &mut Vec<usize>, f: &mut dyn FnMut(&[usize])) {
+            f(cur);
+            if cur.len() == l {
+                return;
+            }
+            for i in 0..words.len() {
+                cur.push(i);
+                rec(words, l, cur, f);
+                cur.pop();
+            }
+        }
+        let mut seqs: Vec<Vec<usize>> = vec![];
+        rec(&words, l.min(3), &mut vec![], &mut |c| seqs.push(c.to_vec()));
+        for sq in seqs {
+            // a digit-ended word followed by a digit-started one would merge: none starts with a digit
+            let ws: Vec<&str> = sq.iter().map(|i| words[*i]).collect();
+            let s: String = ws.concat();
+            check(rep, "MI", &s, observe::<MI>(&s), reference_mi(&ws), &mut digest);
+        }
+    }
     // closure bodies of several syntactic shapes
     strings(&["a", "b", "c", "f", "g", "h", "i", "0", "1", " ", "!", "é"], l + 1, &mut |s| check(rep, "CS", s, observe::<CS>(s), reference_cs(s), &mut digest));
     // longer digit runs and bump runs
